@@ -61,10 +61,14 @@ def run(res, tier, br, model_ok=True, search=False):
         o0, d0, _ = meta.diags(name, src)
         if o0 not in ("ok", "fatal"):
             continue
-        for _ in range(8 if big else (10 if name in ('cond.c', 'sub.c', 'ft.h', 'mac.c', 'str.h', 'zero.c') else 4)):
-            rn = meta.renaming(src, name, rng, keywords)
+        hand = name in ('cond.c', 'sub.c', 'ft.h', 'mac.c', 'str.h', 'zero.c', 'fn.c', 'use.c')
+        todo = [meta.renaming(src, name, rng, keywords) for _ in range(8 if big else (10 if hand else 4))]
+        if hand:
+            # systematically: each lower-case name with each conventional ending / keyword beginning, one at a time
+            todo += meta.affix_renamings(src, name, keywords)
+        for rn in todo:
             if not rn:
-                break
+                continue
             new, mapping = rn
             if new == src:
                 continue
